@@ -510,6 +510,16 @@ func checkC07(p *Prog, res *Result, tier string) {
 			res.add("C07-R6", o.Rule+" "+o.Construct, o.Status, o.Pos, o.Detail)
 		}
 	}
+	// .. and "the compare failed" means exactly that on every engine: the worker's failed-delete discipline (R4) ignores
+	// ErrCASFailed, so an adapter that files another commit error (retryable, timeout) under it hides a delete that
+	// did not happen (C09-R4)
+	{
+		sub9 := newResult("C09")
+		checkCommitClassification(p, r, sub9)
+		for _, o := range sub9.Obls {
+			res.add("C07-R6", o.Rule+" "+o.Construct, o.Status, o.Pos, o.Detail)
+		}
+	}
 	// ---- R10: a key stays writable after its records were compacted away (the creator's re-read, C09-R9) ----
 	checkContradictoryClassification(p, res, "C07-R10")
 	// ---- R9: which ranges are walked ----
